@@ -97,7 +97,7 @@ def abs_names(p):
 HEADER = """From TsRs Require Import Base.Str Base.Outcome Gen.Tables Model.Path Model.Merge Model.Imports Model.ExportSM Spec.PathOracle Tools.Digest.
 Definition U : universe := %s.
 Definition code (o : outcome unit) : char :=
-  match o with Ok _ => 79 | Panic _ => 80 | Err e => if str_eqb e err_cannot_export then 67 else 73 end.
+  match o with Ok _ => 79 | Panic _ => 80 | Err e => if str_eqb e io_error then 73 else 67 end.
 Fixpoint ins (e : str * str) (l : list (str * str)) : list (str * str) :=
   match l with [] => [e] | x :: r => if str_ltb (fst e) (fst x) then e :: l else x :: ins e r end.
 Definition tree (root : apath) (fs : fsys) : str :=
